@@ -23,10 +23,10 @@ ENV["GOCACHE"] = os.path.join(CACHE_ROOT, "gocache")
 BASEFAILS = {}
 
 def run_prop(repo, p):
-    env = ENV if repo != "/repo" else {k: v for k, v in ENV.items() if k != "GOCACHE"}
+    env = ENV if repo not in ("/repo", os.environ.get("SEED_SRC", "/repo")) else {k: v for k, v in ENV.items() if k != "GOCACHE"}
     r = subprocess.run([S2LINT, "-prop", p, "-tier", "quick", "-repo", repo, "-noreplay"], capture_output=True, text=True, env=env)
     fails = re.findall(r"^FAIL (\S+)", r.stdout, re.M)
-    if repo != "/repo" and p in BASEFAILS:
+    if repo not in ("/repo", os.environ.get("SEED_SRC", "/repo")) and p in BASEFAILS:
         fails = [f for f in fails if f not in BASEFAILS[p]]
         return p, (1 if fails else 0), fails
     return p, r.returncode, fails
@@ -34,7 +34,7 @@ def run_prop(repo, p):
 def copy_tree(dst):
     os.makedirs(dst)
     for name in ["go.mod", "go.sum", "r1", "r2", "r3", "s1", "s2"]:
-        src = os.path.join("/repo", name)
+        src = os.path.join(os.environ.get("SEED_SRC", "/repo"), name)  # SEED_SRC: a clean worktree when /repo itself is busy
         if os.path.isdir(src):
             shutil.copytree(src, os.path.join(dst, name))
         else:
@@ -60,10 +60,11 @@ def one_seed(d):
     return name, {"property": prop, "detected_by_own_property": prop in det, "detected_by": det}
 
 def main():
-    if subprocess.run("git -C /repo diff --quiet", shell=True).returncode != 0:
+    src = os.environ.get("SEED_SRC", "/repo")
+    if subprocess.run(f"git -C {src} diff --quiet", shell=True).returncode != 0:
         print("repo dirty"); sys.exit(2)
     with ThreadPoolExecutor(JOBS) as ex:
-        base = list(ex.map(lambda p: run_prop("/repo", p), PROPS))
+        base = list(ex.map(lambda p: run_prop(src, p), PROPS))
     global BASEFAILS
     for p, rc, fails in base:
         if rc != 0:
